@@ -93,6 +93,18 @@ CHECKS = {
         note="Named precondition: some adjacent pair occurs twice (else training raises). The greedy pair choice is not part "
              "of the property and not constrained. Random corpora over {a,b}, {a,b,c} and unicode strings incl. lengths 0/1.",
         tech="TLA+ state machine (nondeterministic merges) model-checked + trace validation of recorded fits"),
+    "C11": dict(
+        cat="model_checking", ref="5 (C11), 4.6",
+        text="EMStep.tla gives one EM iteration twice - declaratively (each occurrence distributes one unit of mass over the cells of "
+             "its own row in proportion to kernel weight x prior) and as the CSR algorithm (row slice, searchsorted position, guarded "
+             "read, write offset) - and TLC checks on every (document, prior) of the bounded model, priors with missing cells "
+             "included, that the two agree, that no read is out of range, that the support never grows and that mass stays in the "
+             "occurrence's row. The enumerated instances are replayed through the real _em_cooccurrence_iteration and compared as "
+             "exact rationals. Whole pipelines (four vectorizers, n_iter 1..3, epsilon 0..0.5, n_threads) are recorded and "
+             "Trace_EM.tla decides the stated consequences (range, column sums, epsilon, support monotonicity).",
+        note="Exact step oracle for the token vectorizer with a directional flat window (V=2..3, length <= 4-5); iterated column "
+             "normalisation is only checked through its stated consequences.",
+        tech="algorithmic + declarative TLA+ specification of the EM step, TLC enumeration replayed; trace validation of pipelines"),
     "C12": dict(
         cat="model_checking", ref="5 (C12), 4.17",
         text="Protocol.tla: after Fit(b0) every Transform(b) must return Len(b) rows, each equal to the memo entry of its item "
